@@ -71,5 +71,8 @@ D8 == Doc(id(8), << IdF(id(8)), Syn(fSyn, << Def(bA, <<bX, bY>>) >>), Syn(fSyn2,
 \* 9 field a without doc values and with term vectors off (D1, D2, D4 index it with doc values)
 D9 == Doc(id(9), << IdF(id(9)), Txt(fA, TRUE, FALSE, 116, <<9>>, <<>>, 2, << Tk(bA, 1, <<>>), Tk(bX, 1, <<>>) >>) >>, <<>>)
 
-Catalogue == << D1, D2, D3, D4, D5, D6, D7, D8, D9 >>
+\* 10 a document the installed field validator rejects (the build fails)
+D10 == Doc(id(0), << IdF(id(0)), [Txt(fB, TRUE, TRUE, 116, <<1>>, <<>>, 1, << Tk(bX, 1, <<>>) >>) EXCEPT !.reject = TRUE] >>, <<>>)
+
+Catalogue == << D1, D2, D3, D4, D5, D6, D7, D8, D9, D10 >>
 =============================================================================
